@@ -209,6 +209,7 @@ class Monitor:
             self.check_vwap(market, mm)
             if t >= 1:
                 self.check_counters(market, mm, t - 1)
+            self.check_series_forms(market, mm, t)
 
     # ------------------------------------------------------------------ expiry record (mid clock advance: no getters!)
     def on_expiration_log(self, log: ExpirationLog) -> None:
@@ -226,7 +227,8 @@ class Monitor:
             self.viol("C04", "expiry_of_dead_order", {"market": mm.name, "order": o.brief(), "time": log.time})
             self.viol("C10", "expiry_record_without_expiry", {"market": mm.name, "order": o.brief(), "time": log.time})
             return
-        if o.ttl is None or log.time != o.placed_at + o.ttl + 1:
+        # the first clock value past placed_at + ttl (a lifetime need not be a whole number of steps)
+        if o.ttl is None or log.time != math.floor(o.placed_at + o.ttl) + 1:
             self.viol("C04", "expiry_wrong_time", {"market": mm.name, "order": o.brief(), "time": log.time})
         if log.volume != o.rem:
             self.viol("C04", "expiry_volume", {"market": mm.name, "order": o.brief(), "logged": log.volume})
@@ -737,6 +739,12 @@ class Monitor:
                     self.viol("C02", "best_order_wrong",
                               {"market": mm.name, "side": "buy" if is_buy else "sell", "where": where,
                                "got": None if bo is None else bo.order_id, "want": None if top is None else top.brief()})
+                if hasattr(book, "get_best_price"):
+                    bp = book.get_best_price()
+                    wp = None if (top is None or top.is_mkt) else top.price
+                    if bp != wp:
+                        self.viol("C02", "best_order_wrong", {"market": mm.name, "side": "buy" if is_buy else "sell", "where": where,
+                                                              "getter": "OrderBook.get_best_price", "got": bp, "want": wp})
         if "C08" in self.on or "C04" in self.on:
             self.check_depth(market, mm, "C08" if "C08" in self.on else "C04", "depth_wrong")
 
@@ -795,6 +803,37 @@ class Monitor:
         if nb != mm.n_buy.get(t, 0) or ns != mm.n_sell.get(t, 0):
             self.viol("C08", "order_counts", {"market": mm.name, "t": t, "got": [nb, ns],
                                              "want": [mm.n_buy.get(t, 0), mm.n_sell.get(t, 0)]})
+
+    def check_series_forms(self, market, mm: MMarket, t: int) -> None:
+        """the list getters asked for a window in other orders and forms describe the same steps as the
+        single getters (element i belongs to times[i])."""
+        if t < 2:
+            return
+        lo = max(0, t - 4)
+        k = self.seq % 4
+        if k == 0:
+            times = list(range(t, lo - 1, -1))            # newest first
+        elif k == 1:
+            times = range(t, lo - 1, -1)                  # the same as a range object
+        elif k == 2:
+            times = [lo, lo, t]                           # a repeated step; as long as the span when t - lo == 2
+        else:
+            times = [t - 1, t, lo]                        # a permuted window
+        pairs = ((market.get_executed_volumes, market.get_executed_volume), (market.get_executed_total_prices, market.get_executed_total_price),
+                 (market.get_n_buy_orders, market.get_n_buy_order), (market.get_n_sell_orders, market.get_n_sell_order),
+                 (market.get_market_prices, market.get_market_price), (market.get_mid_prices, market.get_mid_price),
+                 (market.get_last_executed_prices, market.get_last_executed_price))
+        for multi, single in pairs:
+            try:
+                got = list(multi(times))
+                want = [single(s_) for s_ in times]
+            except Exception:
+                continue
+            if got != want and not any(isinstance(x, float) and x != x for x in got + want):
+                self.viol("C08", "series_getter_order", {"market": mm.name, "getter": multi.__name__, "times": list(times),
+                                                         "got": got, "want": want})
+                break
+        self.stat("series_forms_checked")
 
     def check_vwap(self, market, mm: MMarket) -> None:
         t = market.get_time()
